@@ -10,6 +10,13 @@ HARNESS_FILE = os.path.join(HARNESS, "overlay/runner/zz_verif_c04c05c09_test.go"
 HDR = ("From Coq Require Import List ZArith NArith.\nImport ListNotations.\n"
        "From Dawn Require Import Runner.Model Runner.Run.\nOpen Scope nat_scope.\n")
 
+# the fake target's "eval.results" event (class of every result handed to a target: 0 ok, 1 failed, 2 cyclic) is replayed
+# by the model only when Runner/Run.v has the EvResults constructor
+try:
+    EV_RESULTS = "EvResults" in open(os.path.join(COQ, "Runner/Run.v")).read()
+except Exception:
+    EV_RESULTS = False
+
 # oracle name -> property that owns it
 ORACLE_OWNER = {
     "load_at_most_once": "C04", "evaluate_at_most_once": "C04", "body_at_most_once": "C04",
@@ -132,6 +139,10 @@ def render_events(r):
             out.append("EvMainReturned")
         elif p == "main.result":
             out.append("EvMainResult %s" % b(a[0]))
+        elif p == "eval.results":
+            own = int(a[0])
+            if EV_RESULTS:
+                out.append("EvResults %d [%s]" % (own, "; ".join(str(int(c)) for c in (a[1] or []))))
         else:
             return out, "event %d: unknown hook point %s" % (i, p)
         if own is not None and g2l.get(g) != own:
